@@ -457,7 +457,8 @@ def run(tier, R):
     SEQ_DEPTH[0] = 0  # (un-rendered pairs as the first step; one step deeper only the (set_focus, delete) pairs)
     SEQ_DEPTH[1] = tier
     spec = Spec(cfgs)
-    res = R.bfs(spec, depth=2 if quick else 3, max_states=None if quick else 3_000_000)
+    # both tiers reach depth 2; the thorough tier has four times the start configurations (all four box sizes, lists of up to three items)
+    res = R.bfs(spec, depth=2, max_states=None)
     cov = {
         "states": res["states"],
         "transitions": res["transitions"],
